@@ -5,4 +5,4 @@ Require Import Celma.Common.Res Celma.ArgH.Key Celma.ArgH.Table Celma.ArgH.Lex C
                Celma.ArgH.Split Celma.ArgH.Sources Celma.ArgH.Groups Celma.ArgH.ArgFile Celma.ArgH.SubGroup.
 Extraction Language OCaml.
 Extraction "../ocaml/gen/args_model.ml" parse_key add_argument eval_sources eval_string split
-           file_arg_lines_pinned tokens first next eval_group eval_sources_af eval_sg.
+           file_arg_lines_pinned tokens first next eval_group eval_sources_af eval_sg sg_keys_ok.
